@@ -283,7 +283,7 @@ def run(ctx):
     n_corrupt = 1500 if thorough else 200
     ctx.extra["rule"] = ("random trees (<= 9 nodes, depth <= 3): names from an XML-legal pool incl. non-ASCII, prefixes bound in the node's "
                          "nsmap, child nsmaps containing the parent's prefixes (re-declared / added / reordered), qualified attributes incl. "
-                         "xml:lang, values over all XML 1.0 characters except CR (attribute values also without tab/newline); for export.to_xml "
+                         "xml:lang, values over all XML 1.0 characters (CR, and tab/newline in attribute values, included); for export.to_xml "
                          "in-class trees (no mixed content, no pre-escaped spellings, no para tags) for the statement and unrestricted trees for "
                          "the correspondence; plus the tests/data/eml.xml fixture; non-trivial = distinct output documents containing at least "
                          "one escaped character, attribute or namespace declaration")
